@@ -173,6 +173,11 @@ def run_case(tier, seed, i):
     obj, e = fitted.fit_object(case, which)
     if e is not None:
         return {"status": "skip", "nontrivial": False, "tags": tags + ["fit_" + ("assertion" if common.is_assertion(e) else "internal_error:" + common.exc_name(e))], "counters": counters, "sample": sample}
+    edits = fitted.maybe_edit(rng, case, obj, which, p=0.3)
+    if edits:
+        tags.append("edited")
+        counters["edited_objects"] = 1
+        sample["edits"] = [d for d, _, _ in edits]
     if rng.random() < 0.4:
         rel, e = common.guarded(fitted.json_reload, obj)
         if e is None:
@@ -208,5 +213,5 @@ def run_case(tier, seed, i):
     sample["fitted_features"] = list(obj.features)
     if viols:
         sample["frame"] = gen.frame_to_json(case.X, case.y)
-    return {"status": "violation" if viols else "ok", "nontrivial": nontrivial, "key": common.case_hash(case, which + str("json_rebuilt" in tags)),
+    return {"status": "violation" if viols else "ok", "nontrivial": nontrivial, "key": common.case_hash(case, which + str("json_rebuilt" in tags) + "|".join(d for d, _, _ in edits)),
             "tags": tags, "counters": counters, "violations": viols, "sample": sample}
